@@ -43,7 +43,58 @@ static void scen(int variant)
   a.join(); b.join();
   vf_outcome("runs=%d", (int)g_runsReturned);
 }
-extern "C" int vf_scenario_count(void) { return 1; }
-extern "C" const char* vf_scenario_name(int) { return "interrupt"; }
-extern "C" int vf_scenario_variants(int) { return 4; }
-extern "C" void vf_scenario_run(int, int variant) { scen(variant); }
+// ------------------------------------------------------------------------------------------------ host-name resolver
+// Server::connect(host, ...) resolves the name on a pool thread (Future), which reports back through interrupt();
+// the establisher may be removed, or the whole server destroyed, while that thread is still at work.
+struct EstCb : public Server::Establisher::ICallback
+{
+  volatile int connected, abolished; bool removed; Server* server;
+  EstCb() : connected(0), abolished(0), removed(false), server(0) {}
+  virtual Server::Client::ICallback* onConnected(Server::Client&)
+  {
+    connected = connected + 1;
+    vf_fail("C14:connected-to-unknown-host", "onConnected for a host name that does not resolve");
+    return 0;
+  }
+  virtual void onAbolished()
+  {
+    if(removed) vf_fail("C14:establisher-after-remove", "onAbolished after remove() of the establisher had returned");
+    abolished = abolished + 1;
+    if(abolished > 1) vf_fail("C14:establisher-twice", "onAbolished delivered twice");
+    server->interrupt();
+  }
+};
+struct StopTimer : public Server::Timer::ICallback { Server* server; virtual void onActivated() { server->interrupt(); } };
+
+static void resolverScen(int variant)
+{
+  EstCb cb;
+  {
+    Server server; cb.server = &server;
+    Server::Establisher* e = server.connect(String("no-such-host.invalid"), 80, cb);
+    if(!e) { vf_fail("C14:connect-failed", "connect(host) returned 0 before the name was even resolved"); return; }
+    switch(variant)
+    {
+    case 0: // the loop waits for the resolver and reports the failure once
+      server.run();
+      if(cb.abolished != 1) vf_failf("C14:connect-not-dispatched", "run() returned with %d onAbolished notifications for the unresolvable host", (int)cb.abolished);
+      break;
+    case 1: // removed while the resolver may still be running: no notification, ever
+    {
+      server.remove(*e); cb.removed = true;
+      StopTimer st; st.server = &server;
+      server.time(5, st);
+      server.run();
+      break;
+    }
+    default: // destroyed while the resolver may still be running
+      break;
+    }
+  }
+  vf_mark_library_threads_daemon();   // the global pool keeps its idle workers
+  vf_outcome("abolished=%d", (int)cb.abolished);
+}
+extern "C" int vf_scenario_count(void) { return 2; }
+extern "C" const char* vf_scenario_name(int id) { return id == 0 ? "interrupt" : "resolver"; }
+extern "C" int vf_scenario_variants(int id) { return id == 0 ? 4 : 3; }
+extern "C" void vf_scenario_run(int id, int variant) { if(id == 0) scen(variant); else resolverScen(variant); }
